@@ -193,11 +193,19 @@ def source_audit():
     return hits
 
 
+# properties decided on the key path of package device: their proof obligations include the tie between the function
+# bodies regenerated from device.go / events.go (Hidi/Gen/Bodies.lean) and the model (HidiProofs/Props/GenTie.lean)
+GENTIE_PROPS = {"C01", "C02", "C03", "C04", "C13", "C14"}
+
+
 def prop_modules(prop):
     """proof modules of a property: HidiProofs/Props/<prop>.lean and <prop>*.lean (e.g. C05full.lean)"""
     import glob as _g
     files = sorted(_g.glob(os.path.join(LEAN, "HidiProofs", "Props", prop + "*.lean")))
-    return [os.path.basename(f)[:-5] for f in files]
+    mods = [os.path.basename(f)[:-5] for f in files]
+    if prop in GENTIE_PROPS and os.path.exists(os.path.join(LEAN, "HidiProofs", "Props", "GenTie.lean")):
+        mods.append("GenTie")
+    return mods
 
 
 def prop_theorems(prop):
